@@ -163,7 +163,7 @@ func init() {
 	Checks["C06"] = func(c *Ctx) {
 		c.Cov.Rule = "BFS over block histories with Undo as a transition (newest first, budget = number of undos per path, arbitrary interleaving with further blocks); after every transition of a path that contains an undo, roots, leaf count, GetLeafPosition of every leaf ever added, provability and byte-identical canonical proofs of every tracked subset, and GetHash of every position are compared with the reference forest of the model state; the seen-set key holds the concrete dumps and the top frames of the undo stack; non-trivial = distinct concrete state reached through at least one undo or with a dead leaf"
 		trs := pick(c, []uint8{0, 3, 63}, []uint8{0, 2, 3, 63})
-		insts := stdInsts(trs, []string{"all", "even", "none"})[1:] // no Stump: it cannot undo
+		insts := stdInsts(trs, pick(c, []string{"all", "none"}, []string{"all", "even", "none"}))[1:] // no Stump: it cannot undo
 		fam := &HistFamily{
 			Nmax:      pick(c, 5, 6),
 			Insts:     insts,
